@@ -99,6 +99,24 @@ def enc_anchors(html):
 
 
 # ---- independent reference of "distinct outgoing links" (from the property text)
+def fold_origin(href):
+    """Two targets are the same link target when they differ only in the letter case of scheme and authority; path, query and
+    fragment are case-sensitive.  Written out, not copied from the code: an optional scheme (letters, digits, '_', '+', '-') and
+    ':', then '//', then the authority up to (not including) the first '/', '?' or '#'; no authority, no folding."""
+    i = 0
+    while i < len(href) and (href[i].isalnum() or href[i] in '_+-'):
+        i += 1
+    start = i + 1 if i > 0 and href[i:i + 1] == ':' else 0
+    if href[start:start + 2] != '//':
+        return href
+    j = start + 2
+    while j < len(href) and href[j] not in '/?#':
+        j += 1
+    if j == start + 2:
+        return href
+    return href[:j].lower() + href[j:]
+
+
 def ref_links(html):
     import html5_parser
     soup = html5_parser.parse(html, treebuilder='soup', return_root=False)
@@ -114,9 +132,7 @@ def ref_links(html):
         text = a.get_text().strip()
         if not text:
             text = '[tooltip: %s]' % a['title'] if a.has_attr('title') else '[no text]'
-        m = re.match(r'^([\w+\-]+:)?//[^/]+', href)
-        if m:
-            href = m.group(0).lower() + href[m.end(0):]
+        href = fold_origin(href)
         key = (href, text.lower())
         if key not in keys:
             keys.append(key)
